@@ -161,3 +161,43 @@ Print Assumptions C11_nonneg_distances_needed.
 Theorem C11_checker_comparison_sound : forall a b, trace_eqb a b = true -> trace_equiv a b.
 Proof. exact trace_eqb_equiv. Qed.
 Print Assumptions C11_checker_comparison_sound.
+
+(* ---------- the instruction part: executed_instructions / executed_assertions ---------- *)
+(* grouping never changes instruction order or assertion positions: ((a+b)+c) = (a+(b+c)) *)
+Theorem C11_assertion_positions_assoc : forall a b c, imerge (imerge a b) c = imerge a (imerge b c).
+Proof. exact imerge_assoc. Qed.
+Print Assumptions C11_assertion_positions_assoc.
+
+(* every tree of merge / analyze_results calls equals the flat left-to-right merge of its leaves,
+   so two scripts with the same leaf sequence give the same positions *)
+Theorem C11_assertion_positions_grouping_independent : forall m m',
+  ileaves m = ileaves m' -> ieval m = ieval m'.
+Proof. exact ieval_grouping_independent. Qed.
+Print Assumptions C11_assertion_positions_grouping_independent.
+
+Theorem C11_instruction_merge_flat : forall m, ieval m = imerge_all (ileaves m).
+Proof. exact ieval_flat. Qed.
+Print Assumptions C11_instruction_merge_flat.
+
+(* merged assertions are the own ones followed by shifted copies of the merged-in ones *)
+Theorem C11_assertions_after_merge : forall a b,
+  asserts (imerge a b) = asserts a ++ map (fun pa => (fst pa + ilen a, snd pa)) (asserts b) /\
+  map snd (asserts (imerge a b)) = map snd (asserts a) ++ map snd (asserts b).
+Proof. exact asserts_imerge. Qed.
+Print Assumptions C11_assertions_after_merge.
+
+(* positions stay inside the merged trace and keep pointing at the same instruction *)
+Theorem C11_assertion_positions_in_range : forall a b,
+  iwf a = true -> iwf b = true -> iwf (imerge a b) = true.
+Proof. exact iwf_imerge. Qed.
+Print Assumptions C11_assertion_positions_in_range.
+
+Theorem C11_assertion_target_left : forall a b pos,
+  0 <= pos < ilen a -> target (imerge a b) pos = target a pos.
+Proof. exact target_imerge_left. Qed.
+Print Assumptions C11_assertion_target_left.
+
+Theorem C11_assertion_target_right : forall a b pos,
+  0 <= pos -> target (imerge a b) (pos + ilen a) = target b pos.
+Proof. exact target_imerge_right. Qed.
+Print Assumptions C11_assertion_target_right.
